@@ -238,12 +238,16 @@ def handle (d : DState) (line : String) : DState × List String :=
       (d, [match getInstant d.zone now.int! w with | .ok u => s!"ok {u}" | .error e => s!"err {e.name}"])
   | [.atom "postd", v] =>
       (d, [match getPosTimedelta v.int! with | .ok u => s!"ok {u}" | .error e => s!"err {e.name}"])
-  | .atom "dstcheck" :: year :: ts =>
-      -- one character per time of day: a = accepted without policy, r = rejected (ValueError)
+  | .atom "dstcheck" :: year :: mode :: ts =>
+      -- one character per time of day: a = accepted, r = rejected (ValueError);
+      -- mode: none = no policy given, fwd = only clock_forward given, bwd = only clock_backward given
       let setup := dstSetup d.zone year.int!
       let res := ts.map fun t => match setup with
         | .error _ => 'r'
-        | .ok (rf, rb) => if rf.required t.int! || rb.required t.int! then 'r' else 'a'
+        | .ok (rf, rb) =>
+          let needF := mode.str != "fwd" && rf.required t.int!
+          let needB := mode.str != "bwd" && rb.required t.int!
+          if needF || needB then 'r' else 'a'
       let showReq (r : Req) : String := match r with | .always b => s!"always {b}" | .hour h => s!"hour {h}"
       (d, [match setup with | .error e => s!"setup err {e.name}" | .ok (rf, rb) => s!"setup fwd {showReq rf} bwd {showReq rb}",
            String.ofList res])
